@@ -1,4 +1,546 @@
-pub fn run(_ctx: &vcore::Ctx) -> ! {
-    eprintln!("C41 not built yet");
-    std::process::exit(2)
+//! C41 — IDL compiler output matches the IDL declarations.
+//! Every generated specification goes through `dust_dds_gen::compile_idl` in-process (panic / Err on
+//! in-subset input are violations); the outputs become modules of one throw-away crate that must
+//! compile against ${VERIF_REPO:-/repo}/dds and whose `main` prints the dynamic type descriptions,
+//! which are compared with the IDL AST.
+
+pub mod ast;
+pub mod r#gen;
+pub mod oracle;
+pub mod shrink;
+
+use crate::cb::{self, GenCrate};
+use crate::dump::{self, Finding, finding};
+use crate::rng::Src;
+use ast::*;
+use serde_json::{Value, json};
+use std::collections::BTreeMap;
+use std::sync::Mutex;
+use std::time::Duration;
+use vcore::{Ctx, Failure, Known, Meta, Report};
+
+pub const RULE: &str = "specification has >= 2 declarations with a cross reference (scoped name), or a module, or an annotation";
+
+pub fn case_json(s: &Spec) -> Value {
+    json!({ "idl": render_idl(s), "ast": serde_json::to_value(s).unwrap() })
 }
+
+static LAST_PANIC: Mutex<Option<(String, String)>> = Mutex::new(None);
+
+fn install_hook() {
+    std::panic::set_hook(Box::new(|info| {
+        let file = info.location().map(|l| l.file().to_string()).unwrap_or_default();
+        let msg = if let Some(s) = info.payload().downcast_ref::<&str>() {
+            s.to_string()
+        } else if let Some(s) = info.payload().downcast_ref::<String>() {
+            s.clone()
+        } else {
+            "?".to_string()
+        };
+        *LAST_PANIC.lock().unwrap() = Some((file, msg));
+    }));
+}
+
+pub enum Compiled {
+    Ok(String),
+    Rejected(String),
+    Panicked { file: String, msg: String },
+}
+
+fn normalise(msg: &str) -> String {
+    let mut out = String::new();
+    for c in msg.chars() {
+        if c.is_ascii_digit() {
+            if !out.ends_with('N') {
+                out.push('N');
+            }
+        } else if c == '\n' {
+            out.push(' ');
+        } else {
+            out.push(c);
+        }
+    }
+    out.chars().take(100).collect()
+}
+
+fn repo_relative(file: &str) -> String {
+    match file.find("dds_gen/") {
+        Some(i) => file[i..].to_string(),
+        None => file.to_string(),
+    }
+}
+
+pub fn compile_one(dir: &std::path::Path, n: usize, text: &str) -> Compiled {
+    let path = dir.join(format!("s{n}.idl"));
+    if std::fs::write(&path, text).is_err() {
+        return Compiled::Rejected("harness: cannot write idl".into());
+    }
+    *LAST_PANIC.lock().unwrap() = None;
+    let p2 = path.clone();
+    match std::panic::catch_unwind(move || dust_dds_gen::compile_idl(&p2)) {
+        Ok(Ok(rust)) => Compiled::Ok(rust),
+        Ok(Err(e)) => Compiled::Rejected(e),
+        Err(_) => {
+            let (file, msg) = LAST_PANIC.lock().unwrap().clone().unwrap_or_default();
+            Compiled::Panicked { file: repo_relative(&file), msg }
+        }
+    }
+}
+
+/// the Rust module placed into the generated crate for one specification
+fn render_unit(spec: &Spec, n: usize, rust: &str) -> String {
+    let mut o = String::from("#![allow(warnings)]\n");
+    o.push_str(rust);
+    o.push_str("\npub fn verif_dump_unit() {\n    use dust_dds::xtypes::type_support::Type as VerifType;\n");
+    for_each_def(&spec.defs, &mut vec![], &mut |modpath, d| {
+        let mk = |name: &String| {
+            let mut p = modpath.to_vec();
+            p.push(name.clone());
+            p
+        };
+        match d {
+            Def::Struct { name, .. } | Def::Union { name, .. } => {
+                let p = mk(name);
+                o.push_str(&format!(
+                    "    crate::support::dump_type({n}, \"{}\", &<{} as VerifType>::TYPE);\n",
+                    dds_name(&p),
+                    oracle::rust_path(&p)
+                ));
+            }
+            Def::Enum { name, enumerators, .. } => {
+                let p = mk(name);
+                o.push_str(&format!(
+                    "    crate::support::dump_type({n}, \"{}\", &<{} as VerifType>::TYPE);\n",
+                    dds_name(&p),
+                    oracle::rust_path(&p)
+                ));
+                for (lit, _) in enumerators {
+                    o.push_str(&format!(
+                        "    crate::support::enum_val({n}, \"{dn}\", \"{lit}\", {rp}::{lit} as i64, {rp}::{lit});\n",
+                        dn = dds_name(&p),
+                        rp = oracle::rust_path(&p)
+                    ));
+                }
+            }
+            Def::Typedef { declarators, .. } => {
+                for (name, _) in declarators {
+                    let p = mk(name);
+                    o.push_str(&format!(
+                        "    crate::support::dump_type({n}, \"typedef {}\", &<{} as VerifType>::TYPE);\n",
+                        dds_name(&p),
+                        oracle::rust_path(&p)
+                    ));
+                }
+            }
+            Def::Module { .. } => {}
+        }
+    });
+    o.push_str("}\n");
+    o
+}
+
+const STUB: &str = "pub fn verif_dump_unit() {}\n";
+
+#[derive(Clone, Debug)]
+pub enum Outcome {
+    /// compiled and ran: oracle complaints (possibly none)
+    Checked(Vec<Finding>),
+    Panicked { key: String, msg: String },
+    Rejected { key: String, msg: String },
+    DoesNotCompile { key: String, msg: String },
+}
+
+pub struct BatchOutcome {
+    pub outcomes: Vec<Outcome>,
+    pub build_s: f64,
+    pub builds: usize,
+}
+
+pub fn evaluate_batch(specs: &[Spec], run: &str, name: &str) -> Result<BatchOutcome, String> {
+    let krate = GenCrate::create(run, name)?;
+    let idl_dir = krate.dir.join("idl");
+    let _ = std::fs::remove_dir_all(&idl_dir);
+    std::fs::create_dir_all(&idl_dir).map_err(|e| e.to_string())?;
+    let mut pre: BTreeMap<usize, Outcome> = BTreeMap::new();
+    let mut main = String::from("#![allow(warnings)]\nmod support;\n");
+    for i in 0..specs.len() {
+        main.push_str(&format!("mod s{i};\n"));
+    }
+    main.push_str("fn main() {\n    support::init();\n");
+    for i in 0..specs.len() {
+        main.push_str(&format!("    s{i}::verif_dump_unit();\n"));
+    }
+    main.push_str("}\n");
+    krate.write("src/main.rs", &main);
+    for (i, s) in specs.iter().enumerate() {
+        let text = render_idl(s);
+        match compile_one(&idl_dir, i, &text) {
+            Compiled::Ok(rust) => krate.write(&format!("src/s{i}.rs"), &render_unit(s, i, &rust)),
+            Compiled::Rejected(e) => {
+                krate.write(&format!("src/s{i}.rs"), STUB);
+                pre.insert(i, Outcome::Rejected { key: reject_key(&e), msg: e });
+            }
+            Compiled::Panicked { file, msg } => {
+                krate.write(&format!("src/s{i}.rs"), STUB);
+                pre.insert(
+                    i,
+                    Outcome::Panicked {
+                        key: format!("{}:{}", file, normalise(&msg)),
+                        msg: format!("dust_dds_gen::compile_idl panicked at {file}: {}", dump::trunc(&msg, 200)),
+                    },
+                );
+            }
+        }
+    }
+    let (failed, build_s, builds) = cb::build_excluding(&krate, "s", &|_| STUB.to_string(), 10)?;
+    let stdout = krate.run(Duration::from_secs(120))?;
+    let outs = dump::parse_stdout(&stdout);
+    let empty = dump::CaseOut::default();
+    let mut outcomes = vec![];
+    for (i, s) in specs.iter().enumerate() {
+        if let Some(o) = pre.remove(&i) {
+            outcomes.push(o);
+        } else if let Some(ds) = failed.get(&i) {
+            let d = &ds[0];
+            outcomes.push(Outcome::DoesNotCompile {
+                key: cb::diag_key(d),
+                msg: format!("[{}] {} (at `{}`)", d.code, d.message, dump::trunc(&d.snippet, 60)),
+            });
+        } else {
+            outcomes.push(Outcome::Checked(oracle::check_spec(s, outs.get(&i).unwrap_or(&empty))));
+        }
+    }
+    Ok(BatchOutcome { outcomes, build_s, builds })
+}
+
+/// what a reduced candidate must still show
+#[derive(Clone, Debug, PartialEq)]
+pub enum Target {
+    Sig(String),
+    Panicked(String),
+    Rejected(String),
+    DoesNotCompile(String),
+}
+
+fn matches(o: &Outcome, t: &Target) -> bool {
+    match (o, t) {
+        (Outcome::Checked(fs), Target::Sig(s)) => fs.iter().any(|f| &f.sig == s),
+        (Outcome::Panicked { key, .. }, Target::Panicked(k)) => key == k,
+        (Outcome::Rejected { key, .. }, Target::Rejected(k)) => key == k,
+        (Outcome::DoesNotCompile { key, .. }, Target::DoesNotCompile(k)) => key == k,
+        _ => false,
+    }
+}
+
+/// Outcome class of the IDL compiler alone (no build): used to minimise panics and rejections
+fn compiler_outcome(dir: &std::path::Path, spec: &Spec) -> Option<Target> {
+    match compile_one(dir, 0, &render_idl(spec)) {
+        Compiled::Ok(_) => None,
+        Compiled::Rejected(e) => Some(Target::Rejected(reject_key(&e))),
+        Compiled::Panicked { file, msg } => Some(Target::Panicked(format!("{}:{}", file, normalise(&msg)))),
+    }
+}
+
+fn reject_key(e: &str) -> String {
+    // position independent part of the parser message
+    let stripped: String = e.chars().filter(|c| !c.is_ascii_digit()).collect();
+    let tail = stripped.rsplit("= ").next().unwrap_or(&stripped).trim().to_string();
+    normalise(&tail).chars().take(80).collect()
+}
+
+fn minimise_in_process(spec: &Spec, target: &Target) -> Spec {
+    let dir = cb::out_root().join("C41-inproc");
+    let _ = std::fs::create_dir_all(&dir);
+    let mut cur = spec.clone();
+    for _ in 0..400 {
+        let mut next = None;
+        for c in shrink::reductions(&cur) {
+            if compiler_outcome(&dir, &c).as_ref() == Some(target) {
+                next = Some(c);
+                break;
+            }
+        }
+        match next {
+            Some(c) => cur = c,
+            None => break,
+        }
+    }
+    cur
+}
+
+/// Delta debugging of several failing specifications at once: every round builds one crate holding
+/// the single-step reductions of all of them and keeps, per item, the smallest one that still fails
+/// the same way.
+fn minimise_many(items: &[(Spec, Target)], tag: &str, max_rounds: usize) -> (Vec<Spec>, usize) {
+    let mut cur: Vec<Spec> = items.iter().map(|(s, _)| s.clone()).collect();
+    let mut active: Vec<bool> = vec![true; items.len()];
+    let mut rounds = 0;
+    let name = format!("genout_{}_min", tag.to_lowercase().replace('-', "_"));
+    while rounds < max_rounds && active.iter().any(|a| *a) {
+        let mut batch: Vec<Spec> = vec![];
+        let mut owner: Vec<usize> = vec![];
+        for (k, s) in cur.iter().enumerate() {
+            if !active[k] {
+                continue;
+            }
+            let c: Vec<Spec> = shrink::reductions(s).into_iter().take(60).collect();
+            if c.is_empty() {
+                active[k] = false;
+            }
+            for x in c {
+                batch.push(x);
+                owner.push(k);
+            }
+        }
+        if batch.is_empty() {
+            break;
+        }
+        rounds += 1;
+        let Ok(out) = evaluate_batch(&batch, &format!("{tag}-min"), &name) else { break };
+        let mut progressed = vec![false; items.len()];
+        for ((spec, k), o) in batch.iter().zip(&owner).zip(&out.outcomes) {
+            if progressed[*k] {
+                continue;
+            }
+            if matches(o, &items[*k].1) {
+                cur[*k] = spec.clone();
+                progressed[*k] = true;
+            }
+        }
+        for k in 0..items.len() {
+            if active[k] && !progressed[k] {
+                active[k] = false;
+            }
+        }
+    }
+    (cur, rounds)
+}
+
+pub fn run(ctx: &Ctx) -> ! {
+    install_hook();
+    let mut report = Report::default();
+    let tag = format!("C41-{}", ctx.tier.as_str());
+    let crate_name = format!("genout_c41_{}", ctx.tier.as_str());
+    if let Some(path) = &ctx.replay {
+        let v = vcore::load_replay(path);
+        let spec: Spec = match serde_json::from_value(v["ast"].clone()) {
+            Ok(c) => c,
+            Err(e) => {
+                eprintln!("replay file does not hold a C41 case: {e}");
+                std::process::exit(2)
+            }
+        };
+        println!("--- IDL ---\n{}", render_idl(&spec));
+        match evaluate_batch(std::slice::from_ref(&spec), "C41-replay", "genout_c41_replay") {
+            Ok(out) => {
+                report.stats.evaluations = 1;
+                let shape = oracle::shape_of_features(&oracle::features(&spec));
+                let fs: Vec<Finding> = match &out.outcomes[0] {
+                    Outcome::Checked(fs) => fs.clone(),
+                    Outcome::Panicked { key, msg } => vec![finding(format!("C41:panic:{key}:{shape}"), msg.clone())],
+                    Outcome::Rejected { msg, .. } => vec![finding(format!("C41:rejects-valid:{shape}"), format!("compile_idl returned Err: {msg}"))],
+                    Outcome::DoesNotCompile { msg, .. } => {
+                        vec![finding(format!("C41:does-not-compile:{shape}"), format!("generated Rust does not compile: {msg}"))]
+                    }
+                };
+                if let Compiled::Ok(r) = compile_one(&cb::out_root().join("C41-replay").join("idl"), 0, &render_idl(&spec)) {
+                    println!("--- generated Rust ---\n{r}");
+                }
+                for f in &fs {
+                    println!("oracle: {} -- {}", f.sig, f.what);
+                    report.failures.push(Failure {
+                        signature: f.sig.clone(),
+                        what: f.what.clone(),
+                        case: case_json(&spec),
+                        shrunk_from: None,
+                        shrunk_to: None,
+                    });
+                }
+                if fs.is_empty() {
+                    println!("oracle: no complaint");
+                }
+            }
+            Err(e) => report.inconclusive.push(e),
+        }
+        vcore::finish(ctx, Meta { rule: RULE, assumptions: ASSUMPTIONS, nontrivial_floor: 0 }, report);
+    }
+
+    let batches: usize = ctx.pick(1, 6);
+    let per_batch: usize = ctx.pick(150, 300);
+    let known = Known::load(&ctx.id);
+    let mut src = Src::new(ctx.rng_seed("c41"));
+    let mut build_s = 0.0;
+    let mut builds = 0;
+    // structural / panic findings: signature -> (smallest spec, what, count)
+    let mut by_sig: BTreeMap<String, (Spec, String, u64)> = BTreeMap::new();
+    // compile failures and rejections are grouped by diagnostic first; the signature comes from the
+    // minimised representative: (is_reject, key) -> (smallest spec, message, count)
+    let mut groups: BTreeMap<(u8, String), (Spec, String, u64)> = BTreeMap::new();
+    let mut compiled_ok = 0u64;
+    for b in 0..batches {
+        let specs: Vec<Spec> = (0..per_batch).map(|_| r#gen::gen_spec(&mut src)).collect();
+        let out = match evaluate_batch(&specs, &tag, &crate_name) {
+            Ok(o) => o,
+            Err(e) => {
+                report.inconclusive.push(format!("batch {b}: {e}"));
+                break;
+            }
+        };
+        build_s += out.build_s;
+        builds += out.builds;
+        for (s, o) in specs.iter().zip(&out.outcomes) {
+            let feats = oracle::features(s);
+            let classes: Vec<String> = feats.iter().cloned().collect();
+            let key = vcore::hash_json(&serde_json::to_value(s).unwrap());
+            let nontrivial = oracle::nontrivial(&feats);
+            report.stats.case(key, nontrivial, &classes);
+            if nontrivial && report.stats.wants_sample() && feats.len() >= 8 {
+                report.stats.sample(json!({"idl": render_idl(s)}));
+            }
+            let mut add_sig = |sig: &str, what: &str, spec: &Spec| {
+                let e = by_sig.entry(sig.to_string()).or_insert_with(|| (spec.clone(), what.to_string(), 0));
+                e.2 += 1;
+                if shrink::size(spec) < shrink::size(&e.0) {
+                    e.0 = spec.clone();
+                    e.1 = what.to_string();
+                }
+            };
+            match o {
+                Outcome::Checked(fs) => {
+                    compiled_ok += 1;
+                    report.stats.class("outcome:compiled-and-compared");
+                    for f in fs {
+                        if f.sig.starts_with("harness:") {
+                            report.inconclusive.push(format!("{}: {}", f.sig, f.what));
+                        } else {
+                            add_sig(&f.sig, &f.what, s);
+                        }
+                    }
+                }
+                Outcome::Panicked { key, msg } => {
+                    report.stats.class("outcome:compiler-panicked");
+                    let e = groups.entry((0, key.clone())).or_insert_with(|| (s.clone(), msg.clone(), 0));
+                    e.2 += 1;
+                    if shrink::size(s) < shrink::size(&e.0) {
+                        e.0 = s.clone();
+                        e.1 = msg.clone();
+                    }
+                }
+                Outcome::Rejected { key, msg } => {
+                    report.stats.class("outcome:compiler-returned-err");
+                    let e = groups.entry((1, key.clone())).or_insert_with(|| (s.clone(), msg.clone(), 0));
+                    e.2 += 1;
+                    if shrink::size(s) < shrink::size(&e.0) {
+                        e.0 = s.clone();
+                        e.1 = msg.clone();
+                    }
+                }
+                Outcome::DoesNotCompile { key, msg } => {
+                    report.stats.class("outcome:output-does-not-compile");
+                    let e = groups.entry((2, key.clone())).or_insert_with(|| (s.clone(), msg.clone(), 0));
+                    e.2 += 1;
+                    if shrink::size(s) < shrink::size(&e.0) {
+                        e.0 = s.clone();
+                        e.1 = msg.clone();
+                    }
+                }
+            }
+        }
+    }
+    report.stats.extra.insert("generated_crate_build_s".into(), json!(build_s));
+    report.stats.extra.insert("generated_crate_builds".into(), json!(builds));
+    report.stats.extra.insert("specs_compiled_and_compared".into(), json!(compiled_ok));
+
+    // 1. compiler panics / rejections / outputs that do not compile: one representative per
+    //    diagnostic group is minimised (panics and rejections in-process, the rest in shared build
+    //    rounds); the signature shape is the feature set of the minimal specification
+    let mut min_rounds = 0;
+    let mut minimal: BTreeMap<(u8, String), Spec> = BTreeMap::new();
+    let mut build_items: Vec<((u8, String), (Spec, Target))> = vec![];
+    for ((class, key), (s, _, _)) in &groups {
+        match class {
+            0 => {
+                minimal.insert((*class, key.clone()), minimise_in_process(s, &Target::Panicked(key.clone())));
+            }
+            1 => {
+                minimal.insert((*class, key.clone()), minimise_in_process(s, &Target::Rejected(key.clone())));
+            }
+            _ => build_items.push(((*class, key.clone()), (s.clone(), Target::DoesNotCompile(key.clone())))),
+        }
+    }
+    if !build_items.is_empty() {
+        let items: Vec<(Spec, Target)> = build_items.iter().map(|(_, it)| it.clone()).collect();
+        let (mins, rounds) = minimise_many(&items, &tag, ctx.pick(16, 24));
+        min_rounds += rounds;
+        for ((k, _), m) in build_items.iter().zip(mins) {
+            minimal.insert(k.clone(), m);
+        }
+    }
+    for ((class, key), (orig, msg, count)) in &groups {
+        let min = &minimal[&(*class, key.clone())];
+        let shape = oracle::shape_of_features(&oracle::features(min));
+        let (sig, what) = match class {
+            0 => (format!("C41:panic:{key}:{shape}"), msg.clone()),
+            1 => (format!("C41:rejects-valid:{shape}"), format!("compile_idl returned Err for a valid specification: {}", dump::trunc(msg, 300))),
+            _ => (format!("C41:does-not-compile:{shape}"), format!("the generated Rust does not compile against dust_dds: {}", dump::trunc(msg, 300))),
+        };
+        if known.matches(&sig) {
+            *report.stats.excluded_known.entry(sig).or_insert(0) += count;
+        } else {
+            report.failures.push(Failure {
+                signature: sig,
+                what,
+                case: case_json(min),
+                shrunk_from: Some(shrink::size(orig) as u64),
+                shrunk_to: Some(shrink::size(min) as u64),
+            });
+        }
+    }
+    // 2. structural findings and compiler panics: signature is known up front
+    let mut unknown: Vec<(String, Spec, String)> = vec![];
+    for (sig, (spec, what, count)) in by_sig {
+        if known.matches(&sig) {
+            *report.stats.excluded_known.entry(sig).or_insert(0) += count;
+        } else {
+            unknown.push((sig, spec, what));
+        }
+    }
+    if !unknown.is_empty() {
+        let items: Vec<(Spec, Target)> = unknown.iter().map(|(sig, s, _)| (s.clone(), Target::Sig(sig.clone()))).collect();
+        let (mins, rounds) = minimise_many(&items, &tag, ctx.pick(16, 24));
+        min_rounds += rounds;
+        // explanation from the minimal case
+        let whats: Vec<Option<String>> = match evaluate_batch(&mins, &format!("{tag}-min"), &format!("genout_{}_min", tag.to_lowercase().replace('-', "_"))) {
+            Ok(o) => o
+                .outcomes
+                .iter()
+                .zip(&unknown)
+                .map(|(o, (sig, _, _))| match o {
+                    Outcome::Checked(fs) => fs.iter().find(|f| &f.sig == sig).map(|f| f.what.clone()),
+                    _ => None,
+                })
+                .collect(),
+            Err(_) => vec![None; unknown.len()],
+        };
+        for (((sig, orig, what), min), w) in unknown.into_iter().zip(mins).zip(whats) {
+            report.failures.push(Failure {
+                signature: sig,
+                what: w.unwrap_or(what),
+                case: case_json(&min),
+                shrunk_from: Some(shrink::size(&orig) as u64),
+                shrunk_to: Some(shrink::size(&min) as u64),
+            });
+        }
+    }
+    report.stats.extra.insert("minimisation_rounds".into(), json!(min_rounds));
+    let floor = ctx.pick(75, 900);
+    vcore::finish(ctx, Meta { rule: RULE, assumptions: ASSUMPTIONS, nontrivial_floor: floor }, report);
+}
+
+pub const ASSUMPTIONS: &[&str] = &[
+    "supported subset = what dds_gen/tests/*.idl, the pest grammar and generator/rust.rs handle: modules, structs without inheritance, enums, unions, typedefs, (w)strings, sequences, arrays, scoped names, @key @id @hashid @optional @final @appendable @mutable @nested @bit_bound @value, comments, include guards, #define'd sizes",
+    "not generated: fixed, long double, any, map, bitset/bitmask, interfaces, constants, struct inheritance, annotations on unions/typedefs",
+    "each specification's output is placed in its own module file of the generated crate (like include!-ing it into a module)",
+    "member ids follow XTypes 1.3 7.3.1.2.1.1; unannotated types may be Final or Appendable; octet/uint8 may be BYTE or UINT8; typedefs are transparent; the encoding of 'unbounded' is free",
+    "enumerators are checked through the generated Rust enum (literal names and values) and the dynamic data of each literal, because the dynamic type description has no place for literals",
+];
